@@ -69,6 +69,11 @@ def step (c impl : String) : String :=
       if d2 == "-" then ok "tamper-empty-payload-rejected-by-deserialize"
       else if d2 == d then specViol "a modified ciphertext was accepted (same payload)" else specViol "a modified token decoded to a different position"
     | _ => if impl == "keyerr" || impl == "encerr" then "SKIP " ++ impl else modelDiff "rej|acc"
+  | ["xkey", k1, k2, _] =>
+    if k1 == k2 then (if impl.startsWith "acc" then ok "xkey-same-key" false else modelDiff "acc")
+    else if impl == "rej" then ok "foreign-key-rejected"
+    else if impl.startsWith "acc" then specViol "a token issued under a different key was accepted"
+    else "SKIP " ++ impl
   | ["full", _, u, t] =>
     match unhex u, unhex t with
     | some ub, some tb =>
